@@ -14,6 +14,12 @@ func EvalWithScope(ctx context.Context, path, source string, scope rel.Scope) (r
 		ctx = importcache.WithNewImportCache(ctx)
 	}
 
+	// The standard library given to this source is also the one seen by the expressions that are
+	// evaluated while compiling it.
+	if stdlib, found := scope.Get("//"); found {
+		ctx = withStdlibInEffect(ctx, stdlib)
+	}
+
 	expr, err := Compile(ctx, path, source)
 	if err != nil {
 		return nil, err
